@@ -23,12 +23,12 @@ COMPONENTS = {"real": ["setigen.voltage.polyphase_filterbank (PolyphaseFilterban
               "stub": ["none needed: no clock, file or entropy is read on this path (entropy seam installed as tripwire)"]}
 ASSUMPTIONS = ["scipy.signal.firwin is the documented window design (trusted)",
                "float comparison at 1e-10 of the largest attainable output magnitude"]
-PROBES = ["object_copied_or_pickled_mid_stream", "one_shot_length_not_a_multiple_of_window", "long_single_call", "same_coefficient_count_other_split_alive", "chunk_single_window", "reset_midstream", "nocache_between_feeds", "interleaved_objects",
+PROBES = ["stream_dtype_widens_between_chunks", "object_copied_or_pickled_mid_stream", "one_shot_length_not_a_multiple_of_window", "long_single_call", "same_coefficient_count_other_split_alive", "chunk_single_window", "reset_midstream", "nocache_between_feeds", "interleaved_objects",
           "complex_input", "nonpow2_branches", "dtype_switch_after_reset", "noncontiguous_input", "rejected_call"]
 
 WINDOWS = ["hamming", "hann", "boxcar", "blackman"]
 KINDS = ["gauss", "ints", "impulse", "ramp", "complex"]
-ALL_KINDS = KINDS + ["int8"]
+ALL_KINDS = KINDS + ["int8", "widening"]
 
 
 def as_view(x, layout):
@@ -62,7 +62,24 @@ def make_input(kind, seed, n):
         return rng.standard_normal(n) + 1j * rng.standard_normal(n)
     if kind == "int8":
         return rng.integers(-128, 128, size=n).astype(np.int8)       # integer dtype, as read from a RAW file
+    if kind == "widening":
+        # one stream whose chunks arrive in ever wider dtypes: integers first, then floats, then complex values
+        # (each chunk is handed over in the narrowest dtype that holds it, see _narrow)
+        x = rng.integers(-100, 100, size=n).astype(complex)
+        a, b = n // 3, 2 * n // 3
+        x[a:] += 0.37 * rng.standard_normal(n - a)
+        x[b:] += 1j * rng.standard_normal(n - b)
+        return x
     raise ValueError(kind)
+
+
+def _narrow(chunk):
+    """The narrowest of int64 / float64 / complex128 that holds the chunk exactly."""
+    if np.iscomplexobj(chunk) and not np.any(chunk.imag):
+        chunk = chunk.real.copy()
+    if not np.iscomplexobj(chunk) and np.all(chunk == np.round(chunk)) and chunk.dtype.kind == "f":
+        return chunk.astype(np.int64)
+    return chunk
 
 
 def generate(rng, tier):
@@ -212,7 +229,9 @@ def execute(sc, ctx):
                 import warnings
                 with warnings.catch_warnings():
                     warnings.simplefilter("ignore")
-                    arg = as_view(chunk.copy(), op.get("layout", "c"))
+                    arg = as_view(_narrow(chunk.copy()) if S["kind"] == "widening" else chunk.copy(), op.get("layout", "c"))
+                    if S["kind"] == "widening":
+                        ctx.hit("stream_dtype_widens_between_chunks")
                     if not arg.flags["C_CONTIGUOUS"]:
                         ctx.hit("noncontiguous_input")
                     got = np.asarray(o.channelize(arg, cache=True))
